@@ -25,6 +25,8 @@ struct nng_http_client {
 	nni_list           aios;
 	nni_mtx            mtx;
 	bool               closed;
+	bool               dialing; // a dial on aio is in flight
+	nni_aio           *cur;     // user aio that dial is for (NULL: abandoned)
 	nni_aio            aio;
 	char               host[260];
 	nng_stream_dialer *dialer;
@@ -33,9 +35,12 @@ struct nng_http_client {
 static void
 http_dial_start(nni_http_client *c)
 {
-	if (nni_list_empty(&c->aios)) {
+	// Only one dial at a time: a dial that was aborted because its user
+	// went away is still in flight until its callback has run.
+	if (c->dialing || ((c->cur = nni_list_first(&c->aios)) == NULL)) {
 		return;
 	}
+	c->dialing = true;
 	nng_stream_dialer_dial(c->dialer, &c->aio);
 }
 
@@ -49,17 +54,25 @@ http_dial_cb(void *arg)
 	nni_http_conn   *conn;
 
 	nni_mtx_lock(&c->mtx);
-	rv = nni_aio_result(&c->aio);
+	rv         = nni_aio_result(&c->aio);
+	c->dialing = false;
 
-	if ((aio = nni_list_first(&c->aios)) == NULL) {
-		// User abandoned request, and no residuals left.
-		nni_mtx_unlock(&c->mtx);
+	if ((aio = c->cur) == NULL) {
+		// User abandoned the request this dial was for.  Discard
+		// the result, and serve whoever is waiting now.
 		if (rv == 0) {
 			stream = nni_aio_get_output(&c->aio, 0);
+		} else {
+			stream = NULL;
+		}
+		http_dial_start(c);
+		nni_mtx_unlock(&c->mtx);
+		if (stream != NULL) {
 			nng_stream_free(stream);
 		}
 		return;
 	}
+	c->cur = NULL;
 
 	if (rv != NNG_OK) {
 		nni_aio_list_remove(aio);
@@ -179,8 +192,12 @@ http_dial_cancel(nni_aio *aio, void *arg, nng_err rv)
 {
 	nni_http_client *c = arg;
 	nni_mtx_lock(&c->mtx);
-	nni_aio_abort(&c->aio, rv);
 	if (nni_aio_list_active(aio)) {
+		if (c->cur == aio) {
+			// the dial in flight is ours; nobody wants it now
+			c->cur = NULL;
+			nni_aio_abort(&c->aio, rv);
+		}
 		nni_aio_list_remove(aio);
 		nni_aio_finish_error(aio, rv);
 	}
